@@ -126,12 +126,34 @@ def gen_suggest_op(rng):
     for _ in range(rng.choice([0, 1, 2, 3, 4, 6])):
         inc, ext = rng.choice([(0, 0), (0, 0), (1, 0), (0, 1), (1, 1)])
         edges.append("~".join([rng.choice(FRAMES), rng.choice(NAMES[:6]), rng.choice(FRAMES), rng.choice(NAMES[:7]), str(inc), str(ext)]))
+    if edges and rng.random() < 0.4:
+        # the same parent reached twice, through edges with different include/extend flags, and diamonds
+        f = edges[-1].split("~")
+        for _ in range(rng.randint(1, 2)):
+            inc, ext = rng.choice([(0, 0), (1, 0), (0, 1)])
+            child = f[:2] if rng.random() < 0.6 else [rng.choice(FRAMES), rng.choice(NAMES[:6])]
+            edges.insert(rng.randrange(len(edges) + 1), "~".join(child + f[2:4] + [str(inc), str(ext)]))
     kind = rng.choice(KINDS)
     name = rng.choice(NAMES[:7] + ["foo", "zq", "x"])
     if kind in ("obj", "cls", "const") and name == "":
         name = "A"
     recipe = "~".join([kind, name, rng.choice(BEFORE), rng.choice(FRAMES), rng.choice(NAMES), rng.choice(["", "", "m", "new"]), rng.choice("01"), rng.choice(FRAMES)])
-    sig = "~".join([rng.choice(FRAMES), rng.choice(NAMES), rng.choice(["m", "run", "new"]), rng.choice("01"), rng.choice("001")])
+    if edges and rng.random() < 0.6:
+        # aim the query at the graph: receiver = a child, signature = a class of the graph
+        e = rng.choice(edges).split("~")
+        name = e[1] or "A"
+        rf = recipe.split("~")
+        rf[1] = name
+        rf[7] = e[0]
+        if rng.random() < 0.5:
+            rf[4] = name
+            rf[3] = e[0]
+        recipe = "~".join(rf)
+        e2 = rng.choice(edges).split("~")
+        sf, sc = (e2[2], e2[3]) if rng.random() < 0.7 else (e2[0], e2[1])
+        sig = "~".join([sf, sc, rng.choice(["m", "run", "new"]), rng.choice("01"), rng.choice("001")])
+    else:
+        sig = "~".join([rng.choice(FRAMES), rng.choice(NAMES), rng.choice(["m", "run", "new"]), rng.choice("01"), rng.choice("001")])
     return "suggest %s | %s | %s" % (";".join(edges), recipe, sig)
 
 
